@@ -459,6 +459,21 @@ func Main(prop, level string, assumptions []string, run func(c *Check), replay R
 		merged.Capped = merged.Capped || p.Capped
 	}
 
+	// Pruning validation: the unbounded search with happens-before state-key pruning
+	// must have seen every final observation the bounded search without pruning saw.
+	for name, st := range statIdx {
+		pr, ok := statIdx[name+"/unbounded-pruned"]
+		if !ok || pr.Capped || len(pr.Outcomes) >= 4096 {
+			continue
+		}
+		for out := range st.Outcomes {
+			if pr.Outcomes[out] == 0 {
+				vrt.MachineryFault("pruning lost an outcome: scenario %s reached %q without pruning (bound %d) but not in the pruned unbounded search", name, out, st.Bound)
+			}
+		}
+		merged.Notes = append(merged.Notes, fmt.Sprintf("pruning validated on %s: all %d outcomes of the bound-%d search without pruning also reached by the pruned unbounded search (%d outcomes)", name, len(st.Outcomes), st.Bound, len(pr.Outcomes)))
+	}
+
 	// classify
 	var kf KnownFile
 	if raw, err := os.ReadFile(*known); err == nil {
